@@ -199,3 +199,67 @@ func TestC08(t *testing.T) {
 		Floors: map[string]float64{"document-emitted": 0.5},
 	})
 }
+
+// ---- second part: documents emitted for perturbed projects ---------------------------------
+
+// c08LinkageCheck runs the linkage lab's projects (well-formed routes plus catalogue perturbations). Most perturbed
+// projects are rejected; whenever gleece emits a document all the same, it has to be a valid, closed one.
+func c08LinkageCheck(m lkModel, rec *ev.Recorder) []harness.Viol {
+	ctrls, applied := lkApply(m)
+	p := lkProject(ctrls, m.Noise)
+	res, _, err := runProject(p, lab.Want{Versions: bothVersions})
+	if err != nil {
+		rec.Inconclusive("scratch project: " + err.Error())
+		return nil
+	}
+	if res.Panic != "" {
+		rec.Label("gleece-panicked (reported under C14)", 1)
+		return nil
+	}
+	var viols []harness.Viol
+	seen := map[string]bool{}
+	add := func(sig, format string, a ...any) {
+		if !seen[sig] {
+			seen[sig] = true
+			viols = append(viols, harness.Viol{Signature: "C08:" + sig, Message: fmt.Sprintf(format, a...) + fmt.Sprintf("\nperturbations=%v\n%s", applied, lkDescribe(ctrls))})
+		}
+	}
+	emitted := 0
+	for _, v := range bothVersions {
+		if b, ok := res.Spec[v]; ok && res.Accepted() {
+			emitted++
+			c08CheckDoc(p, b, v, add)
+		}
+	}
+	if emitted > 0 {
+		rec.Label("document-emitted", 1)
+		if len(applied) > 0 {
+			rec.Label("document-emitted-for-perturbed-project", 1)
+		}
+	} else {
+		rec.Label("no-document (rejection)", 1)
+	}
+	return viols
+}
+
+func TestC08Linkage(t *testing.T) {
+	harness.Run(t, harness.Prop[lkModel]{
+		ID:    "C08",
+		Gen:   lkGen,
+		Sweep: lkSweep,
+		Check: c08LinkageCheck,
+		Classify: func(m lkModel) harness.Class {
+			_, applied := lkApply(m)
+			return harness.Class{NonTrivial: len(applied) > 0}
+		},
+		Canon: func(m lkModel) string { return jsonStr(m) },
+		Sample: func(m lkModel) any {
+			ctrls, applied := lkApply(m)
+			return map[string]any{"perturbations": applied, "project": strings.Split(strings.TrimSpace(lkDescribe(ctrls)), "\n")}
+		},
+		Rule: "the linkage lab's generator (see C10): well-formed routes plus 0-2 perturbations from the catalogue, preceded by the catalogue sweep. Oracle: whenever a document is emitted for such a " +
+			"project, the validity predicate of the main part holds for it. Non-trivial = at least one perturbation applied; distinct = hash of the model.",
+		Assume: []string{"this part does not judge acceptance (C10 does); it only reads what was emitted"},
+		Floors: map[string]float64{"document-emitted": 0.2},
+	})
+}
